@@ -2239,8 +2239,13 @@ func (h *fsmHandler) loop(ctx context.Context, wg *sync.WaitGroup) {
 				slog.String("Reason", reason.String()))
 		}
 
-		switch reason.Type {
-		case fsmAdminDown, fsmGracefulRestart:
+		// RFC 4271 8.2.2: going back to Idle, for whatever reason, drops every TCP
+		// connection of the attempt and stops the ConnectRetryTimer. That includes
+		// the connection the outgoing connection manager is working on or has
+		// already queued: left alone it would become the next session without any
+		// new connection, with the OPEN exchanged before the teardown. active()
+		// starts a new manager. The same holds when the peer goes away for good.
+		if nextState == bgp.BGP_FSM_IDLE || nextState < 0 {
 			if fsm.outgoingConnMgr != nil {
 				fsm.outgoingConnMgr.stop()
 			}
